@@ -301,6 +301,7 @@ class Exec:
     def trace(self) -> dict:
         p = self.plan
         return {"cfg": {"side": p["side"], "identity": p["codec"] == "identity", "br": p["codec"] == "br",
+                        "deflate": p["codec"] in ("deflate", "deflate-raw"),
                         "limit": p["limit"],
                         "cms": p.get("cms", 0), "refOk": bool(self.ref.ok) and not p.get("netTrunc", False),
                         "refWhy": self.ref.why if not self.ref.ok else "",
@@ -413,6 +414,19 @@ def run_server(loop: steploop.StepLoop, plan: dict) -> dict:
                 try:
                     if op == "read":
                         body = await request.read()
+                    elif op == "mpost":
+                        # multipart/form-data: re-render what post() parsed with the generator's own
+                        # canonical renderer; the monitor compares length and digest with the reference
+                        form = await request.post()
+                        fields = []
+                        for name, val in form.items():
+                            if isinstance(val, web.FileField):
+                                fields.append((name, val.filename, val.file.read()))
+                            elif isinstance(val, (bytes, bytearray)):
+                                fields.append((name, None, bytes(val)))
+                            else:
+                                fields.append((name, None, val.encode("latin-1")))
+                        body = B.multipart_form(fields)
                     else:
                         form = await request.post()
                         body = b"a=" + form.get("a", "").encode("latin-1")
@@ -535,6 +549,120 @@ def server_plans(ctx: Ctx, rng: Any, bodies: List[B.Body], per_body: int) -> Lis
     return plans
 
 
+def multipart_bodies(rng: Any, quick: bool) -> List[Tuple[B.Body, int]]:
+    """(body, length of the largest field) - multipart/form-data request bodies for post(), every codec:
+    incompressible and highly compressible (wire size far below the decoded size)."""
+    out = []
+    for codec in B.CODECS:
+        shapes = [("small", [("a", None, b"x" * 40), ("f", "up.bin", bytes(range(256)) * 2)]),
+                  ("zeros", [("a", None, b"ab"), ("field", None, b"0" * (1 << 16))]),
+                  ("filezeros", [("f", "z.bin", b"\0" * (1 << 16)), ("t", None, b"tail")])]
+        if not quick:
+            shapes.append(("mixed", [("a", None, bytes(rng.choice(b"abcdefgh") for _ in range(5000))),
+                                     ("f", "m.bin", bytes(rng.randrange(256) for _ in range(3000)))]))
+        for nm, fields in shapes:
+            raw = B.multipart_form(fields)
+            enc = B.encode(codec, raw)
+            out.append((B.Body(f"{codec}/mpform-{nm}", codec, enc, B.reference(codec, enc), "form"),
+                        max(len(v) for _n, _f, v in fields)))
+    return out
+
+
+def multipart_plans(ctx: Ctx, rng: Any) -> List[dict]:
+    """request.post() on multipart/form-data with and without Content-Encoding, client_max_size clearly
+    below the decoded size (413 required) and at / above it (the form must come back intact).  Values
+    between `largest field` and `whole body` are left out: there the code may or may not have seen the
+    closing delimiter when it tests the size."""
+    plans = []
+    for body, big in multipart_bodies(rng, ctx.quick):
+        n = B.ref_len(body.ref)
+        for cms in [1, max(1, big // 2), max(1, big - 1), n, n + 1, 4 * n, 0][:: (1 if not ctx.quick else 1)]:
+            # (readline() of the multipart reader is bounded by the high-water mark: the buffer must hold a line)
+            limit = rng.choice([512, 4096, 65536])
+            plan = _base_plan(rng, body, "server", limit)
+            plan.update(srvop="mpost", cms=cms, ctype=f"multipart/form-data; boundary={B.BOUNDARY}",
+                        name=f"srv/mpost/{body.name}/cms{cms}", kind="form")
+            plans.append(plan)
+    return plans
+
+
+def aligned_plans(ctx: Ctx, rng: Any, bodies: List[B.Body]) -> List[dict]:
+    """Bodies with member boundaries: a network piece / HTTP chunk boundary exactly at every member
+    boundary (the sender flushes member by member), in every framing, on both sides."""
+    plans = []
+    for body in bodies:
+        marks = [m for m in body.marks if 0 < m < len(body.enc)]
+        if not marks or not body.enc:
+            continue
+        per_member = [b - a for a, b in zip([0] + marks, marks + [len(body.enc)])]
+        for side in ("client", "server"):
+            for framing in (("length", "chunked", "eof") if side == "client" else ("length", "chunked")):
+                limit = rng.choice([2, 16, 65536])
+                plan: Dict[str, Any] = {"side": side, "codec": body.codec, "framing": framing, "enc": body.enc,
+                                        "ref": body.ref, "limit": limit, "name": body.name + "/aligned",
+                                        "kind": body.kind, "gap": rng.choice([0, 2]), "glue": rng.random() < 0.3,
+                                        "cyield": 0}
+                if framing == "chunked":
+                    plan["chunks"] = per_member
+                    wire, offmap = B.frame(body.enc, "chunked", per_member)
+                    # one piece per chunk (cut after each chunk's CRLF) or everything in one piece
+                    plan["cuts"] = rng.choice([[offmap[m] - len(b"%x\r\n" % per_member[i + 1]) for i, m in enumerate(marks)], []])
+                else:
+                    plan["cuts"] = list(marks)
+                if side == "client":
+                    plan["sched"] = rng.choice([[("read", 4096)], [("readany",)], [("read", limit + 1)], [("readall",)]])
+                else:
+                    plan["srvop"] = rng.choice(["read", "stream"])
+                    plan["cms"] = 0
+                    plan["sched"] = [("read", 4096)]
+                    plan["name"] = "srv/" + plan["srvop"] + "/" + plan["name"]
+                plans.append(plan)
+    return plans
+
+
+def plateau_plans(ctx: Ctx, rng: Any, bodies: List[B.Body], per_body: int) -> List[dict]:
+    """Chunked + coded bodies cut where the decoder emits nothing: an HTTP chunk ends inside (or at the
+    end of) a stretch of input that decodes to zero bytes (checksum / trailer, header of the next member,
+    empty block ...), the network cuts the chunk right where that stretch begins, and the application
+    has drained everything and waits inside its read call when the rest of the chunk arrives."""
+    plans = []
+    for body in bodies:
+        if body.codec == "identity" or not body.ref.ok or len(body.enc) < 4:
+            continue
+        cum = B.stream_profile(body.codec, body.enc)
+        pls = [(i, j) for (i, j) in B.plateaus(cum) if cum[j] < cum[-1] or j == len(body.enc)]
+        if not pls:
+            continue
+        # prefer stretches that contain a member boundary, then the longest ones
+        pls.sort(key=lambda ij: (not any(ij[0] < m <= ij[1] for m in body.marks), -(ij[1] - ij[0])))
+        for (i, j) in pls[:per_body]:
+            inside = [m for m in body.marks if i < m <= j]
+            b = rng.choice(inside) if inside and rng.random() < 0.7 else rng.randint(i + 1, j)
+            if b >= len(body.enc):
+                chunks = [len(body.enc)]
+            else:
+                chunks = [b, len(body.enc) - b]
+            wire, offmap = B.frame(body.enc, "chunked", chunks)
+            first_end = offmap[0] + chunks[0] + 2                 # after the CRLF that ends the first chunk
+            cut_in = B.wire_offset(offmap, rng.randint(i, b - 1) if rng.random() < 0.5 else i)
+            for side in ("client", "server"):
+                limit = rng.choice([16, 1024, 65536])
+                n = rng.choice([64, 4096])
+                plan: Dict[str, Any] = {"side": side, "codec": body.codec, "framing": "chunked", "enc": body.enc,
+                                        "ref": body.ref, "limit": limit, "name": f"{body.name}/plateau@{i}-{j}",
+                                        "kind": body.kind, "gap": rng.choice([3, 6]), "glue": rng.random() < 0.5,
+                                        "cyield": 0, "chunks": chunks,
+                                        "cuts": sorted({cut_in, first_end} | ({first_end - 2} if rng.random() < 0.3 else set())),
+                                        "sched": rng.choice([[("read", n)], [("iter_chunked", n)], [("read", n)],
+                                                             [("readchunk",)], [("readany",)]])}
+                if side == "server":
+                    plan["srvop"] = "stream"
+                    plan["cms"] = 0
+                    plan["name"] = "srv/stream/" + plan["name"]
+                plans.append(plan)
+    return plans
+
+
 def form_bodies(rng: Any) -> List[B.Body]:
     """Bodies that post() can parse: a=<latin-1 text without separators>."""
     out = []
@@ -571,6 +699,19 @@ def bomb_plans(ctx: Ctx, rng: Any) -> List[dict]:
             plans.append({"side": "server", "codec": body.codec, "framing": "length", "enc": body.enc, "ref": body.ref,
                           "limit": 65536, "name": "srv/read/" + body.name, "kind": "bomb", "gap": 0, "glue": False,
                           "cyield": 0, "sched": [], "cuts": [], "srvop": "read", "cms": cms})
+    # a compressed multipart form whose wire size is far below client_max_size and whose decoded size is
+    # far above: post() must answer 413
+    for codec in B.CODECS:
+        if codec == "identity":
+            continue
+        raw = B.multipart_form([("field", None, b"\0" * ctx.pick(1 << 20, 16 << 20)), ("t", None, b"x")])
+        enc = B.encode(codec, raw, level=9)
+        for framing in ("length", "chunked"):
+            plans.append({"side": "server", "codec": codec, "framing": framing, "enc": enc,
+                          "ref": B.Ref(True, raw), "limit": 65536, "name": f"srv/mpost/{codec}/form-bomb/{framing}",
+                          "kind": "bomb", "gap": 0, "glue": False, "cyield": 0, "sched": [],
+                          "cuts": [len(enc) // 2] if framing == "length" else [], "chunks": [4096] * (len(enc) // 4096 + 1),
+                          "srvop": "mpost", "cms": 65536, "ctype": f"multipart/form-data; boundary={B.BOUNDARY}"})
     return plans
 
 
@@ -1033,6 +1174,10 @@ def run(ctx: Ctx) -> None:
     bodies = B.corpus(rng, ctx.quick)
     plans = client_plans(ctx, rng, bodies, ctx.pick(1, 6))
     plans += server_plans(ctx, rng, bodies + form_bodies(rng), ctx.pick(1, 3))
+    good = [b for b in bodies if b.kind in ("random", "members", "empty-members")]
+    plans += aligned_plans(ctx, rng, bodies)
+    plans += plateau_plans(ctx, rng, good, ctx.pick(2, 6))
+    plans += multipart_plans(ctx, rng)
     plans += bomb_plans(ctx, rng)
     ctx.log(f"{len(plans)} corpus executions planned ({len(bodies)} bodies)")
     batch: List[dict] = []
@@ -1129,7 +1274,14 @@ def selftest(ctx: Ctx) -> int:
         e = next(e for e in t["events"] if e["ev"] == "srv")
         e["s"], e["n"] = "ok", t["cfg"]["cms"] + 1
 
-    bads = [(mutate(cli, flip_digest), "WrongBytes"), (mutate(cli, drop_eof), "Stuck"),
+    def truncated_ref(deflate: bool) -> Callable[[dict], None]:
+        def fn(t: dict) -> None:       # the same recording, had the reference called the stream truncated
+            t["cfg"].update(refOk=False, refWhy="truncated", deflate=deflate)
+        return fn
+
+    bads = [(mutate(cli, truncated_ref(True)), "TruncatedDeflateCleanEof"),
+            (mutate(cli, truncated_ref(False)), "TruncatedStreamCleanEof"),
+            (mutate(cli, flip_digest), "WrongBytes"), (mutate(cli, drop_eof), "Stuck"),
             (mutate(cli, fat_call), "OneCallBudget"), (mutate(cli, fat_buffer), "Resident"),
             (mutate(cli, lost_byte), "WrongLength"), (mutate(cli, data_after_err), "DataAfterError"),
             (mutate(srv, srv_accumulated), "MaxSizeAccumulated"), (mutate(srv, srv_returned_more), "MaxSizeReturnedMore")]
